@@ -32,7 +32,7 @@ theorem spec_hasgen {cfg : Option Nat} {rels : Rels} {r g : Nat} (hwf : WF rels)
 /-- **one refresh round**: with the refresher alive and anything cached, after the round a request is served by
 exactly what the property names, and the refresher is still alive. -/
 theorem tick_fresh {sv : Bool} {cfg : Option Nat} {s : LState} {r g : Nat} (h : InvL cfg s) (ha : s.alive = true)
-    (hc : s.cache ≠ none) (hs : Spec cfg s.rels r g) :
+    (hpd : s.pending = false) (hc : s.cache ≠ none) (hs : Spec cfg s.rels r g) :
     served (tick sv cfg s) = .ok (r, g) ∧ (tick sv cfg s).alive = true ∧ (tick sv cfg s).cache ≠ none := by
   cases hco : s.cache with
   | none => exact absurd hco hc
@@ -45,7 +45,7 @@ theorem tick_fresh {sv : Bool} {cfg : Option Nat} {s : LState} {r g : Nat} (h : 
     rcases instEq_cases he with ⟨hv, ha', hb', _⟩ | ⟨ga, gb, hga, hgb, _, hrel, hv, ha', hb'⟩
     · rw [hv, ha', hb'] at he
       have ht : tick sv cfg s = { s with cache := some new } := by
-        simp [tick, ha, hco, hp, he]
+        simp [tick, ha, hpd, hco, hp, he]
       rw [ht]
       exact ⟨by rw [served_of (s := { s with cache := some new }) rfl hnk, hnr], ha, by simp⟩
     · rw [hnk] at hga; cases hga
@@ -54,7 +54,7 @@ theorem tick_fresh {sv : Bool} {cfg : Option Nat} {s : LState} {r g : Nat} (h : 
       by_cases hv : g = go
       · subst hv
         have ht : tick sv cfg s = { s with cache := some (old.pin g) } := by
-          simp [tick, ha, hco, hp, he]
+          simp [tick, ha, hpd, hco, hp, he]
         rw [ht]
         refine ⟨?_, ha, by simp⟩
         rw [served_of (s := { s with cache := some (old.pin g) }) rfl (genKey_pin hok)]
@@ -62,7 +62,7 @@ theorem tick_fresh {sv : Bool} {cfg : Option Nat} {s : LState} {r g : Nat} (h : 
       · have hb : (g == go) = false := by simp [hv]
         have ht : tick sv cfg s = { s with cache := some (new.pin g) } := by
           rw [hb] at he
-          simp [tick, ha, hco, hp, he]
+          simp [tick, ha, hpd, hco, hp, he]
         rw [ht]
         refine ⟨?_, ha, by simp⟩
         rw [served_of (s := { s with cache := some (new.pin g) }) rfl (genKey_pin hnk)]
@@ -88,21 +88,64 @@ theorem tick_survive_alive (cfg : Option Nat) (s : LState) : (tick true cfg s).a
     · rfl
     · split
       · rw [die_alive_true]
+      split
+      · rw [die_alive_true]
       · split
         · rw [die_alive_true]
         · rfl
         · rfl
   · rfl
 
+/-- a refresh round never touches the registry -/
+theorem tick_rels (sv : Bool) (cfg : Option Nat) (s : LState) : (tick sv cfg s).rels = s.rels := by
+  simp only [tick]
+  split
+  · split
+    · rfl
+    · split
+      · simp only [LState.die]; split <;> rfl
+      split
+      · simp only [LState.die]; split <;> rfl
+      · split
+        · simp only [LState.die]; split <;> rfl
+        · rfl
+        · rfl
+  · rfl
+
+/-- no fault appears out of nothing -/
+theorem tick_pending_false (sv : Bool) (cfg : Option Nat) (s : LState) (h : s.pending = false) :
+    (tick sv cfg s).pending = false := by
+  simp only [tick]
+  split
+  · split
+    · exact h
+    · split
+      · simp only [LState.die]; split <;> rfl
+      split
+      · simp only [LState.die]; split <;> exact h
+      · split
+        · simp only [LState.die]; split <;> exact h
+        · exact h
+        · exact h
+  · exact h
+
+/-- a pending fault strikes the round: nothing but the fault changes when the refresher survives -/
+theorem tick_faulted {cfg : Option Nat} {s : LState} (ha : s.alive = true) (hc : s.cache ≠ none)
+    (hpd : s.pending = true) : tick true cfg s = { s with pending := false } := by
+  cases hco : s.cache with
+  | none => exact absurd hco hc
+  | some old => simp [tick, ha, hco, hpd, LState.die]
+
 theorem alive_tick {sv : Bool} {cfg : Option Nat} {s : LState} (h : InvL cfg s) (ha : AliveInv s)
-    (hok : sv = true ∨ (s.cache ≠ none → ∃ r g, Spec cfg s.rels r g)) : AliveInv (tick sv cfg s) := by
+    (hok : sv = true ∨ (s.pending = false ∧ (s.cache ≠ none → ∃ r g, Spec cfg s.rels r g))) :
+    AliveInv (tick sv cfg s) := by
   intro hc
   have hc0 : s.cache ≠ none := by
     intro h0; rw [tick_cache_none h0] at hc; exact hc h0
   rcases hok with rfl | hok
   · rw [tick_survive_alive]; exact ha hc0
-  · obtain ⟨r, g, hs⟩ := hok hc0
-    exact (tick_fresh h (ha hc0) hc0 hs).2.1
+  · obtain ⟨r, g, hs⟩ := hok.2 hc0
+    exact (tick_fresh h (ha hc0) hok.1 hc0 hs).2.1
 
 theorem alive_select {cfg : Option Nat} {s : LState} (ha : AliveInv s) : AliveInv (select cfg s).2 := by
   unfold select
@@ -122,11 +165,13 @@ theorem alive_useCached {s : LState} (ha : AliveInv s) : AliveInv (useCached s).
     · intro _; exact ha (by simp [hc])
 
 theorem alive_step {sv : Bool} {cfg : Option Nat} {s : LState} (op : LOp) (h : InvL cfg s) (ha : AliveInv s)
-    (hok : sv = true ∨ (s.cache ≠ none → ∃ r g, Spec cfg s.rels r g)) : AliveInv (stepL sv cfg s op).1 := by
+    (hok : sv = true ∨ (s.pending = false ∧ (s.cache ≠ none → ∃ r g, Spec cfg s.rels r g))) :
+    AliveInv (stepL sv cfg s op).1 := by
   rw [stepL_state]
   cases op with
   | publish r => exact ha
   | commit r => exact ha
+  | fault e => exact ha
   | tick => exact alive_tick h ha hok
   | select u =>
     cases u with
@@ -162,19 +207,8 @@ theorem hasGen_step {sv : Bool} {cfg : Option Nat} {s : LState} {c : Nat} (op : 
     cases op with
     | publish r => exact Or.inr (grows_publish hwf r)
     | commit r => exact Or.inr (grows_commit hwf r)
-    | tick =>
-      left
-      simp only [tick]
-      split
-      · split
-        · rfl
-        · split
-          · simp only [LState.die]; split <;> rfl
-          · split
-            · simp only [LState.die]; split <;> rfl
-            · rfl
-            · rfl
-      · rfl
+    | tick => exact Or.inl (tick_rels sv cfg s)
+    | fault e => exact Or.inl rfl
     | select u =>
       left
       have hsel : (select cfg s).2.rels = s.rels := by
@@ -208,34 +242,84 @@ theorem cached_spec_none {s : LState} (h : InvL none s) (hc : s.cache ≠ none) 
       simp only at this; subst this; simp at hm
     | some y => exact ⟨y.1, y.2, pickLatest_newest h.wf hp⟩
 
-/-! ### the three settings in which every reachable state keeps its refresher -/
+/-! ### the settings in which every reachable state keeps its refresher -/
 
-theorem reach_unconfigured {rels0 : Rels} (hwf : WF rels0) (ops : List LOp) :
-    InvL none (execL false none (LState.init rels0) ops) ∧ AliveInv (execL false none (LState.init rels0) ops) := by
-  suffices ∀ s, InvL none s → AliveInv s → InvL none (execL false none s ops) ∧ AliveInv (execL false none s ops) from
-    this _ (invL_init hwf) (by intro h; exact absurd rfl h)
+/-- a history without registry faults -/
+def NoFault (ops : List LOp) : Prop := ∀ op ∈ ops, ∀ e, op ≠ .fault e
+
+theorem pending_step {sv : Bool} {cfg : Option Nat} {s : LState} (op : LOp) (hop : ∀ e, op ≠ .fault e)
+    (h : s.pending = false) : (stepL sv cfg s op).1.pending = false := by
+  rw [stepL_state]
+  cases op with
+  | publish r => exact h
+  | commit r => exact h
+  | fault e => exact absurd rfl (hop e)
+  | tick => exact tick_pending_false sv cfg s h
+  | select u =>
+    have hsel : (select cfg s).2.pending = s.pending := by
+      unfold select; split
+      · rfl
+      · split <;> rfl
+    have huse : ∀ t : LState, (useCached t).2.pending = t.pending := by
+      intro t; unfold useCached; split
+      · rfl
+      · split <;> rfl
+    cases u with
+    | false => rw [hsel]; exact h
+    | true =>
+      simp only
+      split
+      · rw [hsel]; exact h
+      · rw [huse, hsel]; exact h
+
+theorem reach_unconfigured {rels0 : Rels} (hwf : WF rels0) (ops : List LOp) (hnf : NoFault ops) :
+    InvL none (execL false none (LState.init rels0) ops) ∧ AliveInv (execL false none (LState.init rels0) ops) ∧
+      (execL false none (LState.init rels0) ops).pending = false := by
+  suffices ∀ s, InvL none s → AliveInv s → s.pending = false →
+      InvL none (execL false none s ops) ∧ AliveInv (execL false none s ops) ∧ (execL false none s ops).pending = false from
+    this _ (invL_init hwf) (by intro h; exact absurd rfl h) rfl
   induction ops with
-  | nil => intro s h ha; exact ⟨h, ha⟩
+  | nil => intro s h ha hp; exact ⟨h, ha, hp⟩
   | cons op ops ih =>
-    intro s h ha
-    exact ih _ (invL_step op h) (alive_step op h ha (Or.inr (cached_spec_none h)))
+    intro s h ha hp
+    exact ih (fun o ho => hnf o (List.mem_cons_of_mem _ ho)) _ (invL_step op h)
+      (alive_step op h ha (Or.inr ⟨hp, cached_spec_none h⟩)) (pending_step op (hnf op List.mem_cons_self) hp)
 
-theorem reach_configured {rels0 : Rels} {c : Nat} (hwf : WF rels0) (hgen : HasGen rels0 c) (ops : List LOp) :
+theorem reach_configured {rels0 : Rels} {c : Nat} (hwf : WF rels0) (hgen : HasGen rels0 c) (ops : List LOp)
+    (hnf : NoFault ops) :
     InvL (some c) (execL false (some c) (LState.init rels0) ops) ∧
       AliveInv (execL false (some c) (LState.init rels0) ops) ∧
-      HasGen (execL false (some c) (LState.init rels0) ops).rels c := by
-  suffices ∀ s, InvL (some c) s → AliveInv s → HasGen s.rels c →
+      HasGen (execL false (some c) (LState.init rels0) ops).rels c ∧
+      (execL false (some c) (LState.init rels0) ops).pending = false := by
+  suffices ∀ s, InvL (some c) s → AliveInv s → HasGen s.rels c → s.pending = false →
       InvL (some c) (execL false (some c) s ops) ∧ AliveInv (execL false (some c) s ops) ∧
-        HasGen (execL false (some c) s ops).rels c from
-    this _ (invL_init hwf) (by intro h; exact absurd rfl h) hgen
+        HasGen (execL false (some c) s ops).rels c ∧ (execL false (some c) s ops).pending = false from
+    this _ (invL_init hwf) (by intro h; exact absurd rfl h) hgen rfl
   induction ops with
-  | nil => intro s h ha hg; exact ⟨h, ha, hg⟩
+  | nil => intro s h ha hg hp; exact ⟨h, ha, hg, hp⟩
   | cons op ops ih =>
-    intro s h ha hg
-    refine ih _ (invL_step op h) (alive_step op h ha (Or.inr ?_)) (hasGen_step op h.wf hg)
+    intro s h ha hg hp
+    refine ih (fun o ho => hnf o (List.mem_cons_of_mem _ ho)) _ (invL_step op h)
+      (alive_step op h ha (Or.inr ⟨hp, ?_⟩)) (hasGen_step op h.wf hg) (pending_step op (hnf op List.mem_cons_self) hp)
     intro _
     obtain ⟨g, hs⟩ := hasGen_spec h.wf hg
     exact ⟨c, g, hs⟩
+
+/-- **liveness under transient faults**: with the refresher surviving its rounds, two rounds after anything –
+one to take a pending fault, one to refresh – a request is served by what the property names. -/
+theorem tick_twice_fresh {cfg : Option Nat} {s : LState} {r g : Nat} (h : InvL cfg s) (ha : s.alive = true)
+    (hc : s.cache ≠ none) (hs : Spec cfg s.rels r g) :
+    served (tick true cfg (tick true cfg s)) = .ok (r, g) ∧ (tick true cfg (tick true cfg s)).cache ≠ none := by
+  cases hpd : s.pending with
+  | false =>
+    obtain ⟨_, h2, h3⟩ := tick_fresh (sv := true) h ha hpd hc hs
+    have := tick_fresh (sv := true) (invL_tick h) h2 (tick_pending_false true cfg s hpd) h3
+      (by rw [tick_rels]; exact hs)
+    exact ⟨this.1, this.2.2⟩
+  | true =>
+    rw [tick_faulted ha hc hpd]
+    have := tick_fresh (sv := true) (cfg := cfg) (s := { s with pending := false }) ⟨h.wf, h.cache⟩ ha rfl hc hs
+    exact ⟨this.1, this.2.2⟩
 
 theorem reach_repaired {cfg : Option Nat} {rels0 : Rels} (hwf : WF rels0) (ops : List LOp) :
     InvL cfg (execL true cfg (LState.init rels0) ops) ∧ AliveInv (execL true cfg (LState.init rels0) ops) := by
